@@ -129,3 +129,91 @@ def to_nm(clsname):
 CASES = [(f, a) for f in READERS for a in (False, True)]
 for _p in ("C01", "C02"):
     contract(_p, "mdtraj/formats/", "read_as_traj(hdf5|netcdf|mdcrd|xyz|lammpstrj|arc|lh5)", cases=CASES, replay="reader", covers=["returned"])(read_as_traj)
+
+
+# =====================================================================================================
+# load_<format>(filename, top, stride, atom_indices, frame): the glue between md.load and read_as_traj
+LOADERS = {
+    "netcdf": ("mdtraj/formats/netcdf.py", "load_netcdf", "NetCDFTrajectoryFile", True),
+    "hdf5": ("mdtraj/formats/hdf5.py", "load_hdf5", "HDF5TrajectoryFile", False),
+    "mdcrd": ("mdtraj/formats/mdcrd.py", "load_mdcrd", "MDCRDTrajectoryFile", True),
+    "xyz": ("mdtraj/formats/xyzfile.py", "load_xyz", "XYZTrajectoryFile", True),
+    "lammpstrj": ("mdtraj/formats/lammpstrj.py", "load_lammpstrj", "LAMMPSTrajectoryFile", True),
+    "gro": ("mdtraj/formats/gro.py", "load_gro", "GroTrajectoryFile", False),
+    "arc": ("mdtraj/formats/arc.py", "load_arc", "ArcTrajectoryFile", False),
+    "lh5": ("mdtraj/formats/lh5.py", "load_lh5", "LH5TrajectoryFile", False),
+}
+
+
+def load_glue(ctx, case):
+    """frame=i: seek(i) once, then read exactly one frame; otherwise no seek and no frame limit; stride and atom_indices reach
+    read_as_traj unchanged; formats without an own topology get the caller's (parsed) topology; the file is closed afterwards"""
+    fmt, with_frame = case
+    relfile, fname, clsname, needs_top = LOADERS[fmt]
+    c03.install(ctx)
+    im = ctx.interp.import_models
+    top = SubsetTop(5, "caller.top")
+    im["mdtraj.core.trajectory"] = Namespace("trajectory", _parse_topology=lambda t, **k: t, Trajectory=None)
+    from .common import RepoSymbol
+
+    im["mdtraj.formats.hdf5"] = Namespace("hdf5", _check_mode=RepoSymbol(ctx.interp, "mdtraj/formats/hdf5.py", "_check_mode"))
+    mod = ctx.module(relfile)
+    events = []
+
+    class FileStub:
+        def __init__(self, *a, **k):
+            events.append(("open", a, k))
+            self.distance_unit = "angstroms"
+
+        def __enter__(self):
+            events.append(("enter",))
+            return self
+
+        def __exit__(self, *exc):
+            events.append(("exit",))
+            return False
+
+        def seek(self, offset, whence=0):
+            events.append(("seek", offset, whence))
+
+        def read_as_traj(self, *a, **k):
+            events.append(("read_as_traj", a, k))
+            return "TRAJECTORY"
+
+    mod.globals[clsname] = FileStub
+    mod.globals["cast_indices"] = lambda x: x  # index validation is not part of this contract
+    stride = ctx.int("stride")
+    ctx.assume(stride >= 1)
+    frame = ctx.int("frame") if with_frame else None
+    if with_frame:
+        ctx.assume(frame >= 0)
+    atom_indices = TArr("atom_indices", shape=(2,), dtype="int32")
+    kw = dict(stride=stride, atom_indices=atom_indices, frame=frame)
+    if needs_top or fmt == "gro":
+        kw["top"] = top
+    out = ctx.call(mod.globals[fname], "/data/file." + fmt, **kw)
+    ctx.ensure("no-exception", not out.raised)
+    if out.raised:
+        return
+    ctx.cover("returned")
+    kinds = [e[0] for e in events]
+    ctx.ensure("file-opened-once-entered-and-closed", kinds.count("open") == 1 and kinds[0] == "open" and kinds[-1] == "exit" and events[0][1][0] == "/data/file." + fmt)
+    reads = [e for e in events if e[0] == "read_as_traj"]
+    seeks = [e for e in events if e[0] == "seek"]
+    ctx.ensure("read_as_traj-called-once-and-its-result-returned", len(reads) == 1 and out.value == "TRAJECTORY")
+    if len(reads) != 1:
+        return
+    a, k = reads[0][1], reads[0][2]
+    if with_frame:
+        ctx.ensure("frame=i:seek(i)-once-before-reading", len(seeks) == 1 and seeks[0][1] is frame and seeks[0][2] == 0 and kinds.index("seek") < kinds.index("read_as_traj"))
+        ctx.ensure("frame=i:exactly-one-frame-is-read", k.get("n_frames") == 1)
+    else:
+        ctx.ensure("no-frame:no-seek-and-no-frame-limit", not seeks and k.get("n_frames") is None)
+    ctx.ensure("stride-and-atom_indices-reach-read_as_traj-unchanged", k.get("stride") is stride and k.get("atom_indices") is atom_indices)
+    if needs_top:
+        ctx.ensure("the-caller's-topology-is-used", len(a) == 1 and a[0] is top)
+
+
+GLUE_CASES = [(f, w) for f in LOADERS for w in (False, True)]
+for _p in ("C02",):
+    contract(_p, "mdtraj/formats/", "load_netcdf|load_hdf5|load_mdcrd|load_xyz|load_lammpstrj|load_gro|load_arc|load_lh5", cases=GLUE_CASES, replay="reader", covers=["returned"])(load_glue)
